@@ -22,9 +22,9 @@ LEVEL = "exploration"
 DESIGN_REF = "DESIGN.md 4/C15"
 RULE = (
     "case = (namespace path under the root, short name, version, port-ID, designation, cwd): namespace paths of depth 0..2 incl. a "
-    "sub-namespace named like the root; short names {T, Type_1}; versions {0.1, 1.0, 255.255}; port-ID absent / present; 12 ways of "
+    "sub-namespace named like the root; short names {T, Type_1}; versions {0.1, 1.0, 255.255}; port-ID absent / present; 17 ways of "
     "designating target and roots for read_files (absolute / relative / bare name / no root / symlink / '..' / two roots in both "
-    "orders / str vs Path) and 5 for read_namespace; cwd in {parent of the root, an unrelated directory}; plus 70 well- and "
+    "orders / several bare names incl. the name of an inner directory in both orders / str vs Path) and 5 for read_namespace; cwd in {parent of the root, an unrelated directory}; plus 70 well- and "
     "ill-formed file names. Non-trivial iff the namespace depth is >= 1 or the designation is not the absolute path; distinct by "
     "canonical hash of the tuple"
 )
@@ -39,7 +39,8 @@ NS_PATHS = [[], ["sub"], ["sub", "deep"], ["rns"], ["sub", "rns"], ["Sub"]]
 SHORTS = ["T", "Type_1"]
 VERSIONS = [[0, 1], [1, 0], [255, 255]]
 PORTS = [None, 6200]
-RF_DESIGNATIONS = ["abs-abs", "rel-rel", "rel-name", "rel-none", "symlink", "dotdot", "two-roots", "two-roots-reversed", "abs-name", "abs-rel", "rel-abs", "str-args"]
+RF_DESIGNATIONS = ["abs-abs", "rel-rel", "rel-name", "rel-none", "symlink", "dotdot", "two-roots", "two-roots-reversed", "abs-name", "abs-rel", "rel-abs", "str-args",
+                   "abs-names-inner-first", "abs-names-outer-first", "rel-names-inner-first", "rel-names-outer-first", "abs-names-other-first"]
 RN_DESIGNATIONS = ["abs", "rel", "symlink", "dotdot", "str"]
 CWDS = ["parent", "elsewhere"]
 MUST_SUCCEED = {("abs-abs", "parent"), ("rel-rel", "parent"), ("rel-name", "parent"), ("rel-none", "parent"), ("abs-abs", "elsewhere"), ("str-args", "parent")}
@@ -176,6 +177,14 @@ def check_layout(case, R: engine.Acc):
                         tg, roots = [f], [relp(root)]
                     elif d == "rel-abs":
                         tg, roots = [relp(f)], [root]
+                    elif d in ("abs-names-inner-first", "abs-names-outer-first", "rel-names-inner-first", "rel-names-outer-first"):
+                        # several bare root-namespace names, one of which also names a directory INSIDE the root: the identity
+                        # must not depend on the order in which the names are listed
+                        inner = case["ns"][0] if case["ns"] else "other"
+                        names = [Path(inner), Path(ROOT)] if "inner-first" in d else [Path(ROOT), Path(inner)]
+                        tg, roots = [f if d.startswith("abs") else relp(f)], names
+                    elif d == "abs-names-other-first":
+                        tg, roots = [f], [Path("other"), Path(ROOT)]
                     else:
                         tg, roots = str(f), str(root)
                     res, _tr = pydsdl.read_files(tg, roots, [], allow_unregulated_fixed_port_id=True)
